@@ -403,6 +403,7 @@ const FAMILIES: &[&[usize]] = &[
     &[12, 13, 14, 15], &[12, 13, 17, 18, 19], &[13, 15, 17, 18, 24], &[12, 14, 16, 13], &[17, 18, 19, 24, 13],
     &[20, 21, 22, 23], &[20, 21, 22, 23, 8], &[24, 13, 12], &[25, 26, 27, 8], &[27, 9, 10], &[12, 13, 20, 21, 25],
     &[13, 17, 18], &[21, 22, 23],
+    &[28, 8, 1, 2], &[28, 8, 0], &[29, 30, 31, 32], &[29, 32], &[30, 31, 32, 8], &[28, 8, 29],
 ];
 const EXPORT_NAMES: &[usize] = &[0, 1, 2, 3, 4, 6, 7, 8, 9, 11, 14, 19, 22, 34, 35];
 const NODE_NAMES: &[usize] = &[23, 24, 25, 6, 3];
@@ -462,6 +463,32 @@ fn gen_history(u: &Universe, r: &mut Rng, big: bool) -> Vec<Op> {
         let live = g.live();
         let insts: Vec<&LiveNode> = live.iter().filter(|n| n.tag == 'S').collect();
         let instance_like: Vec<&LiveNode> = live.iter().filter(|n| u.inst_exports.contains_key(&n.kid)).collect();
+        // one node feeds several arguments of one instantiation; some are unset again, not in the order they were set
+        if r.chance(1, 5) {
+            let cands: Vec<(&LiveNode, &LiveNode)> = insts.iter().filter_map(|i| {
+                let p = i.pkg?;
+                let t_i = *g.born.get(&i.id).unwrap_or(&0);
+                let srcs: Vec<&LiveNode> = live.iter().filter(|n| n.id != i.id && g.root_time(n.id) < t_i
+                    && u.pkg_imports[p].iter().filter(|(_, ak)| u.sub.contains(&(n.kid, *ak))).count() >= 2).collect();
+                if srcs.is_empty() { None } else { Some((*i, srcs[r.below(srcs.len() as u64) as usize])) }
+            }).collect();
+            if !cands.is_empty() {
+                let (i, n) = cands[r.below(cands.len() as u64) as usize];
+                let p = i.pkg.unwrap();
+                let mut names: Vec<usize> = u.pkg_imports[p].iter().filter(|(_, ak)| u.sub.contains(&(n.kid, *ak))).map(|x| x.0).collect();
+                for k in (1..names.len()).rev() { let j = r.below(k as u64 + 1) as usize; names.swap(k, j); }
+                let mut set: Vec<usize> = Vec::new();
+                for a in &names { if g.try_op(Op::SetArg(i.id, *a, n.id), false).is_some() { set.push(*a); } }
+                if set.len() >= 2 && r.chance(4, 5) {
+                    let nun = 1 + r.below(set.len() as u64 - 1) as usize;
+                    let mut unset = Vec::new();
+                    for _ in 0..nun { if set.is_empty() { break; } let j = r.below(set.len() as u64) as usize; let a = set.remove(j);
+                        g.try_op(Op::UnsetArg(i.id, a, n.id), true); unset.push(a); }
+                    if r.chance(1, 3) { if let Some(a) = unset.first() { g.try_op(Op::SetArg(i.id, *a, n.id), false); } }
+                }
+                continue;
+            }
+        }
         let c = r.below(100);
         if c < 20 || (insts.is_empty() && c < 55) {
             if g.regs.is_empty() { continue; }
@@ -526,7 +553,7 @@ fn gen_history(u: &Universe, r: &mut Rng, big: bool) -> Vec<Op> {
                     for i in &insts { if done { break; }
                         let nid = g.run.node(i.id).unwrap();
                         let args: Vec<(usize, usize)> = g.run.g.get_instantiation_arguments(nid).map(|(n, s)| (u.nidx(n), s.to_string().parse().unwrap())).collect();
-                        if let Some((a, s)) = args.first() { g.try_op(Op::UnsetArg(i.id, *a, *s), true); done = true; } } }
+                        if !args.is_empty() { let (a, s) = args[r.below(args.len() as u64) as usize]; g.try_op(Op::UnsetArg(i.id, a, s), true); done = true; } } }
                 8 => { if let Some((_, (s, gen))) = g.regs.first().copied() { if g.regs.len() > 1 { g.try_op(Op::Unreg(s, gen), true); } } }
                 _ => { let unreg: Vec<usize> = chosen.iter().copied().filter(|p| !g.regs.iter().any(|(q, _)| q == p) && g.run.local.pkgs[*p].is_some()).collect();
                        if let Some(p) = unreg.first() { g.try_op(Op::Reg(*p), true); } }
